@@ -150,6 +150,12 @@ class fetcher(base.fetcher):
                     os.unlink(path)
                 except OSError:
                     pass
+        # the final attempt's result hasn't been looked at yet
+        try:
+            self._verify(path, target)
+            return path
+        except errors.FetchFailed as exc:
+            last_exc = exc
         raise last_exc
 
     def get_path(self, fetchable):
